@@ -298,11 +298,9 @@ func (g *gen) datum(d int) (string, string) {
 func (g *gen) quoteDatum() node {
 	g.h("quote")
 	l, gg := g.datum(3)
-	// the reader macro ' before a string, character, t or nil is a known reader defect (read as two objects):
-	// those atoms are quoted with (quote d); before a number it yields the number since repo_fixes/C01-8
-	isNum := strings.HasPrefix(gg, "DInt") || l == "2.5" || l == "2/3"
-	tickOK := strings.HasPrefix(l, "(") || strings.HasPrefix(gg, "DSym") || strings.HasPrefix(l, ":") || isNum
-	if tickOK && g.r.Bool() {
+	// ' and (quote d) are the same for every datum (since repo_fixes/C01-8 and C01-9 also before numbers, t, nil,
+	// strings and characters)
+	if g.r.Bool() {
 		return node{"'" + l, "(EQuote (" + gg + "))"}
 	}
 	return node{"(quote " + l + ")", "(EQuote (" + gg + "))"}
